@@ -17,6 +17,8 @@ def gen(rnd, k):
     opts = {"p_div": 0.8, "p_split": 0.5, "p_delist": 0.35, "p_expire": 0.6, "p_special_div": 0.35}     # special dividends: two rows sharing a record date
     if k % 7 == 6:
         opts["overlap_div"] = True
+    if k % 4 == 3:
+        opts.update(p_delist=0.6, p_div_over_delist=0.8)      # a dividend still receivable when the stock is delisted
     if k % 5 == 4:
         opts["p_delist"] = 0.5         # the runs with a share conversion need a stock that delists inside the run and one that does not
     S = B.gen_market(rnd, ndays=rnd.randrange(12, 26), opts=opts, **({"n_stocks": 3} if k % 5 == 4 else {}))
